@@ -63,18 +63,14 @@ class Stack(Sequence[T]):
         if not self.items:
             return
 
-        removed = self.items[:]
-        self.items.clear()
-
         if self.lengths:
-            item_count, _ = self.lengths[-1]
-            # Mark all items as popped for the latest snapshot
+            item_count, remained_count = self.lengths[-1]
+            # Items below the low-water mark are still owed to the latest snapshot.
+            # Items above it were pushed after the snapshot and are just discarded.
+            self.popped.extend(reversed(self.items[:remained_count]))
             self.lengths[-1] = (item_count, 0)
-            self.popped.extend(reversed(removed))
-        else:
-            # No snapshots to restore from; reset everything
-            self.popped.clear()
-            self.lengths.clear()
+
+        self.items.clear()
 
     @overload
     def __getitem__(self, index: int) -> T: ...
